@@ -298,7 +298,7 @@ func C05(r *drv.Run) {
 	if !quick(r) {
 		n = 80000
 	}
-	r.Rule = "replace commands whose `with` list mixes literal strings, captures whose value differs per match, every built-in (value, matchNumber, startOffset, endOffset, lineNumber, columnNumber, totalMatches, filename), undefined names, named-loop (map valued) names and 0..2 generated transforms reading match, matchLength, captures and the match's built-ins; texts derived from the body with >= 2 matches where possible; a third of the cases under an amount clause (skip / take / top / last); one case in 25 is wide: 9..101 single-letter captures in a row, a with-list of 9..300 items (captures, strings, built-ins, undefined names, transforms), 0..33 transforms each reading one capture, counts drawn from both sides of 10, 16, 32, 64, 100, 128, 256. Also three fixed programs through RunFiles (modes NOTHING and NEW) on files named with doubled separators, /./, sub/../ and through directory arguments with and without trailing slash: the built-in filename, as a with-item and inside a transform, is the Filename of the same match. Also 30 sources in which one transform name is set again between three replace commands (bodies of one to four statements in every order): each command uses the definition in force where it stands. Also two transforms whose loop runs as often as the match says, 3 .. 2 000 003 times (counts on both sides of 65 536, 1 000 000 and 2^20). Also five bodies that capture the same text under different names depending on where it stands, with-lists of strings and captures only, under every amount clause: adjacent matches of equal text carry different replacements. Also control flow, exhaustively for small shapes: one counting loop whose body leaves a letter in a trace at every position around one continue / break / return that sits one to three `if` levels deep, in the then- or else-branch of each level, under three conditions, with and without statements behind the inner `if` (quick: all of depth 1 and 2, a third of depth 3; thorough: all 5 652): the replacement is the trace. Oracle: (a) the replace run equals the find run of the same body in every field but Replacement; (b) each Replacement equals the concatenation computed from the find-run's match by the harness (transforms through the process-language reference interpreter). Non-trivial = a match whose expected replacement is non-empty and that carries >= 1 variable; distinct by (program, text)."
+	r.Rule = "replace commands whose `with` list mixes literal strings, captures whose value differs per match, every built-in (value, matchNumber, startOffset, endOffset, lineNumber, columnNumber, totalMatches, filename), undefined names, named-loop (map valued) names and 0..2 generated transforms reading match, matchLength, captures and the match's built-ins; texts derived from the body with >= 2 matches where possible; a third of the cases under an amount clause (skip / take / top / last); one case in 25 is wide: 9..101 single-letter captures in a row, a with-list of 9..300 items (captures, strings, built-ins, undefined names, transforms), 0..33 transforms each reading one capture, counts drawn from both sides of 10, 16, 32, 64, 100, 128, 256. Also three fixed programs through RunFiles (modes NOTHING and NEW) on files named with doubled separators, /./, sub/../ and through directory arguments with and without trailing slash: the built-in filename, as a with-item and inside a transform, is the Filename of the same match. Also 30 sources in which one transform name is set again between three replace commands (bodies of one to four statements in every order): each command uses the definition in force where it stands. Also two transforms whose loop runs as often as the match says, 3 .. 2 000 003 times (counts on both sides of 65 536, 1 000 000 and 2^20). Also five bodies that capture the same text under different names depending on where it stands, with-lists of strings and captures only, under every amount clause: adjacent matches of equal text carry different replacements. Also 30 programs whose body names a capture `match` or `matchLength` (first, last, inside a loop, in one alternative only, inside an outer capture) and whose transform reads match and matchLength: the transform sees the whole matched text and its length, not the capture. Also control flow, exhaustively for small shapes: one counting loop whose body leaves a letter in a trace at every position around one continue / break / return that sits one to three `if` levels deep, in the then- or else-branch of each level, under three conditions, with and without statements behind the inner `if` (quick: all of depth 1 and 2, a third of depth 3; thorough: all 5 652): the replacement is the trace. Oracle: (a) the replace run equals the find run of the same body in every field but Replacement; (b) each Replacement equals the concatenation computed from the find-run's match by the harness (transforms through the process-language reference interpreter). Non-trivial = a match whose expected replacement is non-empty and that carries >= 1 variable; distinct by (program, text)."
 	r.Assumptions = []string{
 		"an absent Replacement and the empty string are the same replacement (a `with` list that names nothing)",
 		"transforms whose evaluation divides by zero are not judged (known finding K1); matchNumber is not used inside transforms",
@@ -400,6 +400,7 @@ func C05(r *drv.Run) {
 	c05Redefine(r)
 	c05Loops(r)
 	c05Flow(r)
+	c05Shadow(r)
 	c04CaptureLists(r) // with-lists of strings and captures only: the replacement of a match is made of ITS captures
 	if r.NViolations() == 0 {
 		expensiveFloor(r)
